@@ -752,6 +752,10 @@ func reflectCompare(a, b reflect.Value) bool {
 	if a.Kind() == reflect.Interface && b.Kind() == reflect.Interface {
 		a, b = a.Elem(), b.Elem()
 	}
+	if a.Kind() != b.Kind() {
+		// keys of a union type: numbers and text in one map
+		return a.Kind() < b.Kind()
+	}
 	if a.CanInt() {
 		return a.Int() < b.Int()
 	}
